@@ -120,7 +120,7 @@ def classify(res):
 
 
 def last_call(prog):
-    calls = [p for p in prog if p and p[0] in ("CALL", "MASK", "KTH")]
+    calls = [p for p in prog if p and p[0] in ("CALL", "MASK", "KTH", "STACK")]
     return calls[-1] if calls else None
 
 
@@ -312,6 +312,8 @@ def run_check(tier, seed):
                     kth += 1
                     if p[4] != 0:
                         probes["allocation_not_freed_after_kth_failure"] += 1
+                elif p[0] == "STACKRES":
+                    probes["small_stack_thread_calls"] += 1
                 elif p[0] == "LEAK":
                     probes["allocation_not_freed_unfaulted"] += 1
         # ---- sessions
@@ -459,4 +461,8 @@ def replay_quiet(path, sig, env, sdir):
                 "progress": str(sdir / f"confirm-w{js['workload']}.log")}
     r = run_child(args, env, 600)
     kind, s, _ = classify(r)
+    if js["part"] == "alloc":
+        # stack exhaustion shows as SEGV, stack-overflow or a wild write
+        # depending on where the guard page sits: same kernel frame is enough
+        return kind == "violation" and s.split("@")[-1] == sig.split("@")[-1]
     return kind == "violation" and s == sig
